@@ -593,6 +593,10 @@ func (g *Gen) boolAtom(d int) *GExpr {
 				if r.Bool() {
 					return bin(TB, "^=", g.S(d-1, "op"), lit(pick(r, []string{"k", "k0", "v", "", "a", "K", "1"})))
 				}
+				if !g.safeDiv && r.Chance(0.25) { // (not where evaluation must stay total: a computed pattern may be no regular expression)
+					// a pattern computed from the row (a column, a function of one, an alias): compiled per row
+					return bin(TB, "~=", g.S(d-1, "op"), g.S(d-1, "arg"))
+				}
 				return bin(TB, "~=", g.S(d-1, "op"), lit(pick(r, []string{"^k", "0$", "[0-9]+", "a", "^v.*", "l"})))
 			}
 		case 5:
